@@ -45,13 +45,13 @@ type execSpec struct {
 }
 
 type scenario struct {
-	CB      cbmodel.Config `json:"cb"`       // count / ratio thresholds, optional success threshold; delay on the frozen clock
-	Racers  []execSpec     `json:"racers"`   // phase A: run concurrently against the closed breaker (instant behaviour)
-	Blocked []execSpec     `json:"blocked"`  // phase A2: submitted while the breaker is open: none may get through
-	RaceB   bool           `json:"race_b"`   // phase B: trials are submitted concurrently (racing for permits) instead of one by one
-	Trials  []execSpec     `json:"trials"`   // phase B: submitted after the delay elapsed
-	Release []int          `json:"release"`  // order in which parked trials are completed
-	Rounds  int            `json:"rounds"`   // repeat phases A2/B this many times
+	CB      cbmodel.Config `json:"cb"`      // count / ratio thresholds, optional success threshold; delay on the frozen clock
+	Racers  []execSpec     `json:"racers"`  // phase A: run concurrently against the closed breaker (instant behaviour)
+	Blocked []execSpec     `json:"blocked"` // phase A2: submitted while the breaker is open: none may get through
+	RaceB   bool           `json:"race_b"`  // phase B: trials are submitted concurrently (racing for permits) instead of one by one
+	Trials  []execSpec     `json:"trials"`  // phase B: submitted after the delay elapsed
+	Release []int          `json:"release"` // order in which parked trials are completed
+	Rounds  int            `json:"rounds"`  // repeat phases A2/B this many times
 }
 
 type execState struct {
